@@ -2,6 +2,7 @@
 from mirlib import *
 import blob_rules
 import page_rules
+import cache_rules
 
 TECHNIQUE = "MIR protocol order + dataflow of Blob::write (offset/length provenance), seek-first / bounded-copy / count-checked shape of Blob::read, sibling comparison of the four ImageWriter::add_* functions, enum<->tag bijection tables"
 EXPLANATION = (
@@ -21,6 +22,7 @@ def run(ctx):
     ctx.rule("R3", "add_visual_reference/pinhole/spherical/cylindrical: data <- Blob::write(writer, image), mask <- Blob::write(writer, mask) under Some, format/properties stored unchanged, right projection variant, already-set guard")
     ctx.rule("R4", "ImageFormat::{Png,Jpeg} <-> pngImage/jpegImage and the imageMask tag agree in xml_string and from_node of all representations")
     ctx.rule("R5", "the page reload behind the header patch (PagedWriter::read_current_page) loops over short reads and zero-fills (shared with C11-R6/C16-R2)")
+    ctx.rule("R6", "the page reader serves blob bytes only from a verified page: cache typestate of PagedReader (shared with C07-R1..R4)")
     for cfg in (["lib"] if ctx.tier == "quick" else ["lib", "lib_crc32c"]):
         prog, info = load_program(cfg, "e57")
         ctx.configs[cfg] = info
@@ -30,4 +32,9 @@ def run(ctx):
         blob_rules.image_siblings(ctx, prog, "R3")
         blob_rules.enum_tag_bijection(ctx, prog, "R4")
         page_rules.read_current_page_shape(ctx, prog, "R5")
+        page_rules.reload_after_advance(ctx, prog, "R5")
+        cache_rules.who_may_write(ctx, prog, cache_rules.PR, rule="R6")
+        cache_rules.invalidate_on_clobber(ctx, prog, cache_rules.PR, rule="R6")
+        cache_rules.validate_before_publish(ctx, prog, cache_rules.PR, "table" if cfg == "lib" else "crate", rule="R6")
+        cache_rules.serve_only_verified(ctx, prog, cache_rules.PR, rule="R6")
     ctx.cfg = None
